@@ -100,7 +100,7 @@ QUICK = [b for b in ORDER if b not in ("copy", "temp", "gas", "mix", "equil", "s
 ALPHABETS = {"full": ORDER, "quick": QUICK, "core": CORE, "store": STORE}
 # alphabet -> (depth, k): every sequence of 1..depth blocks; k = None: the complete cut x entry-point space of each,
 # k = int: every execution within k deviations of the one-call execution
-DEPTH = {"quick": {"quick": (2, None), "store": (3, 2)}, "thorough": {"full": (2, None), "core": (3, None), "store": (4, 3)}}
+DEPTH = {"quick": {"quick": (2, None), "store": (3, 2)}, "thorough": {"full": (2, None), "core": (3, None), "store": (3, None)}}
 assert sorted(ORDER) == sorted(BLOCKS) and set(CORE) <= set(ORDER)
 
 
